@@ -107,7 +107,7 @@ fn gen_fragment(rng: &mut Rng) -> String {
         }
         NUMBERS[rng.usize_below(NUMBERS.len())].to_string()
     };
-    match rng.below(101) {
+    match rng.below(104) {
         0..=24 => format!("\\{} ", voc[rng.usize_below(voc.len())]),
         25..=34 => num(rng),
         35..=39 => UNITS[rng.usize_below(UNITS.len())].to_string(),
@@ -225,6 +225,29 @@ fn gen_fragment(rng: &mut Rng) -> String {
                 _ => format!("\\skip5=\\{kind}{r} plus \\{kind}{r} minus 1.5\\{kind}{r} "),
             };
             format!("{setup}{use_it}")
+        }
+        101..=103 => {
+            // the end-line character changed on an EARLIER line (it takes effect when the next line is read), then a
+            // construct whose last character is the last character of a line or of the input: a lone escape
+            // character (the empty-named control sequence when no end-line character is appended), an alphabetic
+            // constant `\ , a name running into the line end
+            let elc = *rng.pick(&["-1", "-1", "255", "65", "13", "32", "92", "200", "-5", "128"]);
+            let tail = *rng.pick(&[
+                "\\count1=`\\",
+                "\\chardef\\a=`\\",
+                "\\catcode`\\",
+                "\\def\\a{\\",
+                "\\",
+                "\\count1=`",
+                "\\the\\count`\\",
+                "\\ifnum`\\",
+                "\\input \\",
+                "\\let\\a=\\",
+                "\\string\\",
+                "\\expandafter\\",
+                "\\csname\\",
+            ]);
+            format!("\\endlinechar={elc} \n{tail}{}", rng.pick(&["", "", "\n", "\nx "]))
         }
         100 => format!("\\tracingmacros={} ", num(rng)),
         96 => format!("\\dumpFormat={} \\dumpValidate={} ", num(rng), num(rng)),
